@@ -2,7 +2,7 @@
    ending in a node of the fragment, at every level.  Recursive definitions have no finite level and stay outside. *)
 From Coq Require Import List ZArith Bool Lia.
 From Verif Require Import Base.Sx Base.GoVal Schema.Ast Schema.Build Schema.Pipeline Schema.Draft4 Schema.PipelineFacts
-  Schema.PipelineTerm Schema.Agreement.
+  Schema.PipelineTerm Schema.AgreementData Schema.Agreement.
 Import ListNotations.
 Open Scope Z_scope.
 
@@ -17,6 +17,7 @@ Variable K : nat.                                   (* bound on the length of a 
 Hypothesis Hopt_items : opt_array_must_have_items opt = false.
 Hypothesis Hopt_array : opt_obj_array_type_check opt = false.
 Hypothesis Hord : forall a b, fin a -> fin b -> n_lt N a b = negb (n_le N b a).
+Hypothesis Heq_sym : forall a b, fin a -> fin b -> n_eq N a b = n_eq N b a.
 
 (* s reaches t through k references *)
 Inductive chain : nat -> schema -> schema -> Prop :=
@@ -68,7 +69,7 @@ Proof.
   assert (Hf2' : exists g2, f2 = (k + S g2)%nat /\ (n * S K <= g2)%nat).
   { exists (f2 - k - 1)%nat. cbn [Nat.mul] in Hf2. split; lia. }
   destruct Hf2' as [g2 [-> Hg2]]. rewrite (d4_chain d k s t Hch (S g2)). cbn [d4]. rewrite (chain_end k s t Hch).
-  apply (body_agree fin allow_null OR N opt Hopt_items Hopt_array Hord (sv_validate OR N opt defs g1) (d4 OR N defs g2) t p q d Hl); [|exact Hd].
+  apply (body_agree fin allow_null OR N opt Hopt_items Hopt_array Hord Heq_sym (sv_validate OR N opt defs g1) (d4 OR N defs g2) t p q d Hl); [|exact Hd].
   eapply kids_impl; [|exact Kd]. intros c Hcc p' q' d' Hd'. apply IH; [exact Hcc | lia | exact Hg2 | exact Hd'].
 Qed.
 
